@@ -78,6 +78,18 @@ Proof.
 Qed.
 Print Assumptions c20_pbt_unfixed_clone_source_alive_refuted.
 
+(* PBT ranks the CURRENT population: whenever on_trial_result decides to clone (before and after
+   the fix), the source j is a trial not marked stopped in the state the decision is taken in
+   (pbt_needed = ids of the trials with stopped = False); pbt_inv holds in every reachable state. *)
+Theorem c20_pbt_stopped_never_chosen :
+  forall fx p n s i r s' d j, pbt_inv n s ->
+    on_result (pbt_sched_gen fx p) s i r = (s', d, Some j) -> In j (pbt_needed s).
+Proof.
+  intros fx p n s i r s' d j HI E.
+  exact (proj2 (proj2 (proj2 (pbt_H_res0 fx p n s i r s' d (Some j) HI E))) j eq_refl).
+Qed.
+Print Assumptions c20_pbt_stopped_never_chosen.
+
 (* Localisation of finding F-C20-1 (pbt_sched_unfixed = PopulationBasedTraining before the
    fix).  In EVERY run, a clone is started from a deleted checkpoint ONLY IF backend.stop_trial
    was called for the source j (which happens only right after the scheduler's own STOP for j,
@@ -171,6 +183,20 @@ Theorem c20_resume_has_checkpoint_promotion :
     forall w, ~ In (EDelete i w) pre.
 Proof. exact promo_resume_has_checkpoint. Qed.
 Print Assumptions c20_resume_has_checkpoint_promotion.
+
+(* the promotion-type rung system itself (promo2_sched: HyperbandScheduler promotion / pasha /
+   rush_promotion / cost_promotion): the PAUSE / STOP / CONTINUE decision is computed (STOP at
+   max_t, PAUSE at the milestone with registration in the rung), and a promotion is only accepted
+   for an entry registered and not yet promoted in a rung below max_t; only the choice among those
+   entries and the bracket of a new trial remain oracle inputs.  For all rung levels, max_t, schedules,
+   batch orders and failure patterns: every resume_trial(i) is preceded by no delete_checkpoint(i).
+   Invariant promo2_inv: a trial is registered as not promoted at most once, never while it runs. *)
+Theorem c20_resume_has_checkpoint_hyperband :
+  forall c levels max_t its pre i post, speculative c = false ->
+    run promo2_sched c (init (promo2_0 levels max_t)) its = pre ++ EResume i :: post ->
+    forall w, ~ In (EDelete i w) pre.
+Proof. exact promo2_resume_has_checkpoint. Qed.
+Print Assumptions c20_resume_has_checkpoint_hyperband.
 
 (* synchronous Hyperband (sync_sched: bracket manager, rung completion, get_top_list incl. failed
    trials with NaN, trials_checkpoints_can_be_removed), full strength: for every rung table with
@@ -293,3 +319,14 @@ Example c20_example_fs :
                 (FsCopy 0 2, [(0%Z, Some 7%Z); (2%Z, Some 7%Z)]); (FsSchedule 2, [(2%Z, Some 7%Z)]); (FsDelete 0, [(0%Z, None); (1%Z, Some 7%Z)])] = true
   /\ fs_step [] (FsCopy 0 1) = None.
 Proof. vm_compute. split; reflexivity. Qed.
+
+Example c20_example_hyperband :
+  let c := {| delete_checkpoints := true; remove_callback := false; speculative := false |} in
+  filter (fun e => match e with EDecision _ _ | EResume _ | EDelete _ WStop => true | _ => false end)
+    (run promo2_sched c (init (promo2_0 [1; 3]%Z 9%Z))
+      [ {| reports := []; completed := []; failed := []; hold := false; sugg := [(None, 1%Z)]; spec_choice := [] |};
+        {| reports := [(0%Z, 1%Z)]; completed := []; failed := []; hold := false; sugg := [(Some (1%Z, 0%Z), 1%Z)]; spec_choice := [] |};
+        {| reports := [(0%Z, 2%Z); (0%Z, 3%Z)]; completed := []; failed := []; hold := false; sugg := [(Some (3%Z, 0%Z), 1%Z)]; spec_choice := [] |};
+        {| reports := [(0%Z, 9%Z)]; completed := []; failed := []; hold := false; sugg := [(Some (3%Z, 0%Z), 1%Z)]; spec_choice := [] |} ])
+  = [EDecision 0 PAUSE; EResume 0; EDecision 0 CONTINUE; EDecision 0 PAUSE; EResume 0; EDecision 0 STOP; EDelete 0 WStop].
+Proof. vm_compute. reflexivity. Qed.
